@@ -483,6 +483,9 @@ class TextGen:
                 anchor = ''          # '#C000' in the expansion would be read as a macro named #C
             else:
                 land.add(x)
+                lit = anchor[1:]
+                if (lit.isdigit() and int(lit) == entry['addr']) or (re.match(r'^\d+e\d+$', lit) and int(float(lit)) == entry['addr']):
+                    land.add(entry['addr'])     # the spelled id happens to evaluate to the entry address: it is converted
         if anchor:
             self._count('R:anchor')
         text = ''
@@ -498,7 +501,8 @@ class TextGen:
         d = self.d
         pages = self.w['pages']
         pid = d.choice(sorted(pages))
-        if pid == 'Custom' and not main_writer and 'Custom' not in self.w['paths'] and AVOID['F33']:
+        if pid == 'Custom' and not main_writer and AVOID['F33']:
+            # a secondary writer registers a custom memory map (path, title, link text) only if its own entries fit the map
             pid = 'MemoryMap'
         pg = pages[pid]
         anchor = ''
@@ -1309,7 +1313,8 @@ def known_class(sig, case):
         return 'F31'
     if sig == 'skool2html:ValueError@skoolhtml.py:expand_link' and re.search(r'#LINK\([^)]*#[^)]*\)\(\)', texts):
         return 'F32'
-    if sig.startswith('skool2html-error:Error while parsing #LINK macro: Unknown page ID') and '[OtherCode:' in texts and '[MemoryMap:' in texts:
+    if (sig.startswith('skool2html-error:Error while parsing #LINK macro: Unknown page ID') or sig == 'skool2html:KeyError@skoolhtml.py:expand_link') \
+            and '[OtherCode:' in texts and '[MemoryMap:' in texts:
         return 'F33'
     if sig.startswith('skool2html-error:Error while parsing #R macro: Address not found') and re.search(r'#R[^@\s]*@main', case['files'].get(case.get('skool'), '')):
         return 'F34'
